@@ -181,7 +181,7 @@ def run_case(case):
 
     stored = on_fresh_thread(plan, name='ref')
     good = dict(stored)
-    if any(stored.get(a) in ('', None) for a in dag.formulas()):
+    if any(wbgen.unstorable(stored.get(a)) for a in dag.formulas()):
         # a formula result that is the empty text or an empty reference cannot be stored in a
         # file the reader gives back (both are read as "no stored result"): there is no
         # consistent file to start from
